@@ -164,7 +164,7 @@ func (self *ProxyServerProtocol) ProcessLockResultCommandLocked(command *protoco
 	if self.serverProtocol == defaultServerProtocol {
 		defaultServerProtocol.slock.clientsGlock.Lock()
 		if self.serverProtocol == defaultServerProtocol {
-			if serverProtocol, ok := defaultServerProtocol.slock.clients[self.clientId]; ok {
+			if serverProtocol, ok := defaultServerProtocol.slock.clients[self.clientId]; ok && self.clientId != [16]byte{} {
 				defaultServerProtocol.slock.clientsGlock.Unlock()
 				err := serverProtocol.AddProxy(self)
 				if err == nil {
@@ -1571,7 +1571,7 @@ func (self *BinaryServerProtocol) ProcessLockResultCommand(command *protocol.Loc
 		}
 
 		self.slock.clientsGlock.Lock()
-		if serverProtocol, ok := self.slock.clients[self.proxys[0].clientId]; ok && serverProtocol != ServerProtocol(self) {
+		if serverProtocol, ok := self.slock.clients[self.proxys[0].clientId]; ok && serverProtocol != ServerProtocol(self) && self.proxys[0].clientId != [16]byte{} {
 			self.slock.clientsGlock.Unlock()
 			return serverProtocol.ProcessLockResultCommandLocked(command, result, lcount, lrcount, data)
 		}
